@@ -23,6 +23,11 @@ func buildPipeline(g *scheduler.ExecutionGraph, stages []*stageDefinition, cfg *
 			if stageTask == nil {
 				return nil, fmt.Errorf("stage build failed: no such task %s", def.Task)
 			}
+
+			// every stage gets its own copy of the task: stage-level dir, env
+			// and variables must not leak into other stages using the same task
+			stageTaskCopy := *stageTask
+			stageTask = &stageTaskCopy
 		} else {
 			stagePipeline = cfg.Pipelines[def.Pipeline]
 			if stagePipeline == nil {
